@@ -102,7 +102,7 @@ def build_coq():
     sys.path.insert(0, os.path.join(VERIF, "tools"))
     import gen_params
     info = gen_params.generate(REPO, os.path.join(COQ, "theories", "Params.v"))
-    rc, out = sh("coq_makefile -f _CoqProject -o Makefile >/dev/null 2>&1; timeout 3000 make -k -j16 2>&1 | tail -60",
+    rc, out = sh("ulimit -v 12000000; coq_makefile -f _CoqProject -o Makefile >/dev/null 2>&1; timeout 3000 make -k -j16 2>&1 | tail -60",
                  cwd=COQ, timeout=3200)
     ok = True
     for v in theory_files():
@@ -126,6 +126,8 @@ def build_model():
                  cwd=gen)
     if not os.path.exists(os.path.join(gen, "model.ml")):
         return False, out
+    if os.path.exists(drv):
+        os.unlink(drv)
     rc, out2 = sh("ocamlfind ocamlopt -w -a -I gen gen/model.mli gen/model.ml driver.ml -o driver 2>&1 | tail -20",
                   cwd=OCAML)
     if rc != 0 or not os.path.exists(drv):
@@ -186,7 +188,7 @@ def check_obligations(prop_id):
     path = os.path.join(COQ, "Properties", prop_id + ".v")
     src = open(path).read()
     names = [m.group(2) for m in THM_RE.finditer(re.sub(r"\(\*.*?\*\)", "", src, flags=re.S))]
-    cmd = "timeout 900 coqc -Q theories RQ -Q Properties RQP Properties/%s.v" % prop_id
+    cmd = "ulimit -v 12000000; timeout 900 coqc -Q theories RQ -Q Properties RQP Properties/%s.v" % prop_id
     t0 = time.time()
     rc, out = sh(cmd, cwd=COQ, timeout=1000)
     res = {"file": "coq/Properties/%s.v" % prop_id, "obligations": names, "discharged": [],
@@ -289,7 +291,8 @@ def write_replay(prop_id, seed, payload):
     payload["property"] = prop_id
     payload["seed"] = seed
     with open(p, "w") as f:
-        json.dump(payload, f, indent=1)
+        json.dump(payload, f, indent=1,
+                  default=lambda o: o.decode("latin-1") if isinstance(o, (bytes, bytearray)) else str(o))
     return p
 
 
